@@ -1,4 +1,4 @@
-SPECIFICATION Spec
+SPECIFICATION LiveSpec
 CONSTANTS
   p1 = p1
   p2 = p2
@@ -6,15 +6,11 @@ CONSTANTS
   Peers <- TwoPeers
   Ported <- TwoPeers
   TTL = 12
-  MaxTime = 26
+  MaxTime = 8
   Lossy = FALSE
   KeepLater = FALSE
   DropUntil = 1000
   Async <- TwoPeers
 INVARIANT TypeOK
-INVARIANT GoodbyeHonoured
-INVARIANT NeverPartial
-INVARIANT NothingForeign
-INVARIANT Prompt
-INVARIANT Stable
+PROPERTY EventuallyForgottenAll
 CHECK_DEADLOCK FALSE
